@@ -26,6 +26,7 @@ fn id_tables() -> Vec<IdTable> {
         IdTable { name: "unordered", lines: vec![(2, "V,*"), (0, "BOS/EOS,*"), (1, "N,x")], extra: None },
         IdTable { name: "star-feature", lines: vec![(0, "BOS/EOS,*"), (1, "*,x"), (2, "x,N")], extra: None },
         IdTable { name: "slashes-a", lines: vec![(0, "BOS/EOS,*"), (1, "a,x"), (2, "a/b,x"), (3, "N,b/c")], extra: None },
+        IdTable { name: "trailing-blank", lines: vec![(0, "BOS/EOS,*"), (1, "N,x "), (2, "V,\u{3000}"), (3, "N,x")], extra: None },
         IdTable { name: "slashes-b", lines: vec![(0, "BOS/EOS,*"), (1, "b/c,y"), (2, "c,y"), (3, "V,c")], extra: None },
     ]
 }
@@ -68,7 +69,7 @@ impl IdTable {
 const TEMPLATES: [(&str, &str); 4] = [("B0:%L[0]", "%R[0]"), ("%L[0]", "%R[1]"), ("B1:%L[0],%L?[1]", "%R?[1]"), ("%L[0]", "%R[0]")];
 
 /// model.def line menu: (weight text, feature text)
-const MODEL_LINES: [(&str, &str); 16] = [
+const MODEL_LINES: [(&str, &str); 18] = [
     ("50", "B0:V/V"),     // -35000 with factor 700
     ("-47.5", "V/x"),     // +33250 with factor 700 (bare template)
     ("0.9", "B1:N,x/BOS/EOS"), // left word -> EOS
@@ -85,6 +86,9 @@ const MODEL_LINES: [(&str, &str); 16] = [
     ("-0.75", "N/x"),
     ("1.5", "B1:N,x/x"),
     ("-2", "V/*"),
+    // features ending in a blank / U+3000 (table "trailing-blank"); toggled together in the full enumeration
+    ("1.0", "N/x "),
+    ("0.25", "V/\u{3000}"),
 ];
 
 pub fn run(tier: Tier) -> i32 {
@@ -119,10 +123,11 @@ pub fn run(tier: Tier) -> i32 {
         // overriding, sums over templates)
         let small_masks = ri <= 1 && li <= 1;
         let masks: Vec<usize> = if all_masks {
-            (0..nmask).collect()
+            // the last two lines (trailing-blank features) are switched on and off together
+            (0..nmask).filter(|m| (m >> 16) == 0 || (m >> 16) == 3).collect()
         } else if small_masks {
             (0..nmask).filter(|m| m.count_ones() <= 3 || m.count_ones() as usize >= MODEL_LINES.len() - 1).collect()
-        } else { vec![0, nmask - 1, 0b1010101010101010, 0b0101010101010101, 0b0001000111111111, 0b1100000, 0b100000, 0b1000000, 0b11100, 0b11, 0b1, 0b10] };
+        } else { vec![0, nmask - 1, 0b1010101010101010, 0b0101010101010101, 0b0001000111111111, 0b1100000, 0b100000, 0b1000000, 0b11100, 0b11, 0b1, 0b10, 0b110000000000000000, 0b010000000000000001, 0b100000000000000010] };
         for mask in masks {
             for factor in factors {
                 st.states += 1;
@@ -277,7 +282,7 @@ pub fn run(tier: Tier) -> i32 {
             }
         }
     }
-    rep.rule = "state = (bigram template set from 3 templates incl. optional references, right-id and left-id tables from a 10-table menu (incl. features containing a slash) (plain, 4 ids, without id 0, id 0 not BOS/EOS, gap, malformed line, unordered, '*' feature), subset of a 14-line model.def menu (incl. BOS/EOS lines) (positive, negative, rounds to zero, unmatched, unigram line, line with a third '/' part, bare-template lines), cost factor 100/700); accepted conversions are compiled with a probe lexicon and every non-zero id pair's connection cost is compared with the sum over applicable templates of -trunc(weight x factor) of the line whose text is left expansion '/' right expansion; malformed tables must give Err, and so must 15 malformed id-line shapes (sign-prefixed, non-ASCII digit, missing space, tab, empty...) at every line position of either table; distinct = distinct (tables, templates, lines, outcome)".into();
+    rep.rule = "state = (bigram template set from 3 templates incl. optional references, right-id and left-id tables from a 10-table menu (incl. features containing a slash) (plain, 4 ids, without id 0, id 0 not BOS/EOS, gap, malformed line, unordered, '*' feature, features ending in a blank / U+3000), subset of a 14-line model.def menu (incl. BOS/EOS lines) (positive, negative, rounds to zero, unmatched, unigram line, line with a third '/' part, bare-template lines), cost factor 100/700); accepted conversions are compiled with a probe lexicon and every non-zero id pair's connection cost is compared with the sum over applicable templates of -trunc(weight x factor) of the line whose text is left expansion '/' right expansion; malformed tables must give Err, and so must 15 malformed id-line shapes (sign-prefixed, non-ASCII digit, missing space, tab, empty...) at every line position of either table; distinct = distinct (tables, templates, lines, outcome)".into();
     rep.bounds = json!({"id_tables": tables.len(), "template_sets": tsets.len(), "model_line_subsets": nmask});
     rep.finish(st, &["malformed_id_tables", "malformed_id_lines", "conversions_accepted", "id_pairs_with_nonzero_cost"])
 }
